@@ -39,18 +39,21 @@ VARIABLES disk,    \* [AllFiles -> table]                committed contents
           temp,    \* [cur, rp]                          temporary table and its restore point
           ended,   \* BOOLEAN                            the run is over (script mode)
           envn,    \* Nat                                number of environment commits so far
+          enc,     \* SUBSET AllFiles                    loaded files whose encoding attribute was set to Shift_JIS
           out
 
-vars == <<disk, cache, dirty, created, temp, ended, envn, out>>
-ViewNoOut == <<disk, cache, dirty, created, temp, ended, envn>>
+vars == <<disk, cache, dirty, created, temp, ended, envn, enc, out>>
+ViewNoOut == <<disk, cache, dirty, created, temp, ended, envn, enc>>
 
 Ok == [k |-> "ok", e |-> "", vals |-> <<>>]
 Err(e) == [k |-> "err", e |-> e, vals |-> <<>>]
 Val(s) == [k |-> "val", e |-> "", vals |-> s]
 
 RECURSIVE Flat(_)
-\* a cell is a small natural number or NULL (-1)
-CellText(x) == IF x = -1 THEN "NULL" ELSE ToString(x)
+\* a cell is a small natural number, NULL (-1) or a text that is not a number and that Shift_JIS cannot spell (H)
+H == 777
+CellText(x) == IF x = -1 THEN "NULL" ELSE IF x = H THEN "H" ELSE ToString(x)
+Plus(x, n) == IF x = -1 \/ x = H THEN -1 ELSE x + n       \* arithmetic on NULL or on a non-numeric text is NULL
 Flat(rows) == IF rows = <<>> THEN <<>> ELSE [i \in 1..Len(Head(rows)) |-> CellText(Head(rows)[i])] \o Flat(Tail(rows))
 \* what is shown of a table: the column names and the cells, row by row (an empty result shows no header)
 Show(t) == IF t.absent THEN <<"ABSENT">> ELSE IF t.rows = <<>> THEN <<"EMPTY">> ELSE t.cols \o Flat(t.rows)
@@ -82,7 +85,16 @@ UpdateOp(t, k) ==
        IF m = {} THEN R(t, 0)
        ELSE IF ~Has(t, "v") THEN F("FieldNotExist")
        ELSE LET iv == ColIdx(t, "v") IN
-            R(T(t.cols, [i \in 1..Len(t.rows) |-> IF i \in m THEN [t.rows[i] EXCEPT ![iv] = IF @ = -1 THEN -1 ELSE @ + 1] ELSE t.rows[i]]), Cardinality(m))
+            R(T(t.cols, [i \in 1..Len(t.rows) |-> IF i \in m THEN [t.rows[i] EXCEPT ![iv] = Plus(@, 1)] ELSE t.rows[i]]), Cardinality(m))
+
+\* UPDATE t SET id = v, v = id [WHERE id = k] : every assignment reads the row as it was before the statement
+UpdateSwapOp(t, k) ==
+  IF k # 0 /\ ~Has(t, "id") THEN (IF t.rows = <<>> THEN R(t, 0) ELSE F("FieldNotExist"))
+  ELSE LET m == Matching(t, k) IN
+       IF m = {} THEN R(t, 0)
+       ELSE IF ~Has(t, "v") \/ ~Has(t, "id") THEN F("FieldNotExist")
+       ELSE LET iv == ColIdx(t, "v")  ii == ColIdx(t, "id") IN
+            R(T(t.cols, [i \in 1..Len(t.rows) |-> IF i \in m THEN [t.rows[i] EXCEPT ![iv] = t.rows[i][ii], ![ii] = t.rows[i][iv]] ELSE t.rows[i]]), Cardinality(m))
 
 \* UPDATE t SET v = CASE WHEN id = k THEN 1 % 0 ELSE v + 1 END : rows are evaluated in order (one worker);
 \* the first row that cannot be evaluated decides the error (after the rows before it were processed)
@@ -135,7 +147,7 @@ InsertSelOp(t, u) ==
   ELSE IF (~Has(u, "id") \/ ~Has(u, "v")) /\ u.rows # <<>> THEN F("FieldNotExist")   \* the select list is only evaluated per row
   ELSE IF Len(t.cols) # 2 THEN F("InsertSelectFieldLength")
   ELSE IF u.rows = <<>> THEN R(t, 0)
-  ELSE R(T(t.cols, t.rows \o [i \in 1..Len(u.rows) |-> <<u.rows[i][ColIdx(u, "id")] + 10, u.rows[i][ColIdx(u, "v")]>>]), Len(u.rows))
+  ELSE R(T(t.cols, t.rows \o [i \in 1..Len(u.rows) |-> <<Plus(u.rows[i][ColIdx(u, "id")], 10), u.rows[i][ColIdx(u, "v")]>>]), Len(u.rows))
 
 \* INSERT INTO t (id) VALUES (k) : the other columns are NULL
 InsertColsOp(t, k) ==
@@ -179,7 +191,7 @@ Init ==
   /\ cache = [f \in AllFiles |-> NotLoaded]
   /\ dirty = {} /\ created = {}
   /\ temp = [cur |-> T(<<"id", "v">>, <<>>), rp |-> T(<<"id", "v">>, <<>>)]
-  /\ ended = FALSE /\ envn = 0
+  /\ ended = FALSE /\ envn = 0 /\ enc = {}
   /\ out = Ok
 
 HeldU == {f \in AllFiles : cache[f].loaded /\ cache[f].upd}
@@ -194,12 +206,12 @@ Select(t) ==
        ELSE /\ out' = Val(Show(Seen(t)))
             /\ cache' = IF t # TempT /\ ~cache[t].loaded THEN [cache EXCEPT ![t] = Loaded(disk[t], FALSE)] ELSE cache
             /\ UNCHANGED ended
-  /\ UNCHANGED <<disk, dirty, created, temp, envn>>
+  /\ UNCHANGED <<disk, dirty, created, temp, envn, enc>>
 
 \* SELECT * FROM (SELECT * FROM t) s  /  SELECT COUNT(*), SUM(v) FROM t : the same table as the transaction sees it
 SelectSub(t) == Select(t)
 RECURSIVE SumCol(_, _)
-SumCol(rows, i) == IF rows = <<>> THEN 0 ELSE (IF Head(rows)[i] = -1 THEN 0 ELSE Head(rows)[i]) + SumCol(Tail(rows), i)
+SumCol(rows, i) == IF rows = <<>> THEN 0 ELSE (IF Head(rows)[i] \in {-1, H} THEN 0 ELSE Head(rows)[i]) + SumCol(Tail(rows), i)
 SelectAgg(t) ==
   /\ IF t # TempT /\ Seen(t).absent
        THEN out' = Err("FileNotExist") /\ ended' = Script /\ UNCHANGED cache
@@ -207,11 +219,11 @@ SelectAgg(t) ==
        THEN /\ out' = Err("FieldNotExist") /\ ended' = Script
             /\ cache' = IF t # TempT /\ ~cache[t].loaded THEN [cache EXCEPT ![t] = Loaded(disk[t], FALSE)] ELSE cache
        ELSE /\ out' = Val(<<ToString(Len(Seen(t).rows)),
-                            IF Seen(t).rows = <<>> \/ \A i \in 1..Len(Seen(t).rows) : Seen(t).rows[i][ColIdx(Seen(t), "v")] = -1 THEN "NULL"
+                            IF Seen(t).rows = <<>> \/ \A i \in 1..Len(Seen(t).rows) : Seen(t).rows[i][ColIdx(Seen(t), "v")] \in {-1, H} THEN "NULL"
                             ELSE ToString(SumCol(Seen(t).rows, ColIdx(Seen(t), "v")))>>)
             /\ cache' = IF t # TempT /\ ~cache[t].loaded THEN [cache EXCEPT ![t] = Loaded(disk[t], FALSE)] ELSE cache
             /\ UNCHANGED ended
-  /\ UNCHANGED <<disk, dirty, created, temp, envn>>
+  /\ UNCHANGED <<disk, dirty, created, temp, envn, enc>>
 
 \* the table a data-changing statement works on: a file loaded by a plain SELECT is loaded again, under
 \* an exclusive lock (the documented exception of C20)
@@ -230,22 +242,22 @@ DmlR(t, r, alter, ro, fu) ==
   IF t # TempT /\ ForUpdate(t).absent
     THEN /\ out' = Err("FileNotExist")
          /\ ended' = Script
-         /\ UNCHANGED <<disk, cache, dirty, created, temp, envn>>
+         /\ UNCHANGED <<disk, cache, dirty, created, temp, envn, enc>>
   ELSE IF r.err = "FileNotExist"
     THEN /\ out' = Err("FileNotExist") /\ ended' = Script
          /\ cache' = IF t = TempT THEN cache ELSE [cache EXCEPT ![t] = Loaded(ForUpdate(t), TRUE)]
-         /\ UNCHANGED <<disk, dirty, created, temp, envn>>
+         /\ UNCHANGED <<disk, dirty, created, temp, envn, enc>>
   ELSE IF r.err # ""
     THEN \* C08: nothing changes - except that the tables are now loaded (the target held for update)
          /\ out' = Err(r.err)
          /\ cache' = IF t = TempT THEN CacheAfter("", NotLoaded, ro, fu) ELSE CacheAfter(t, Loaded(ForUpdate(t), TRUE), ro, fu)
          /\ ended' = Script
-         /\ UNCHANGED <<disk, dirty, created, temp, envn>>
+         /\ UNCHANGED <<disk, dirty, created, temp, envn, enc>>
   ELSE /\ out' = Val(<<ToString(r.n)>>)
        /\ IF t = TempT THEN temp' = [temp EXCEPT !.cur = r.tbl] /\ cache' = CacheAfter("", NotLoaded, ro, fu)
                        ELSE cache' = CacheAfter(t, Loaded(r.tbl, TRUE), ro, fu) /\ UNCHANGED temp
        /\ dirty' = IF r.n > 0 \/ alter THEN dirty \cup {t} ELSE dirty
-       /\ UNCHANGED <<disk, created, ended, envn>>
+       /\ UNCHANGED <<disk, created, ended, envn, enc>>
 Dml(t, r, alter) == DmlR(t, r, alter, {}, {})
 
 RowsOk(t, n) == Len(ForUpdate(t).rows) + n <= MaxRows
@@ -270,6 +282,49 @@ AddCol(t)        == Dml(t, AddColOp(ForUpdate(t)), TRUE)
 DropCol(t)       == Dml(t, DropColOp(ForUpdate(t)), TRUE)
 Rename(t, a, b)  == Dml(t, RenameOp(ForUpdate(t), a, b), TRUE)
 
+UpdateSwap(t, k) == Dml(t, UpdateSwapOp(ForUpdate(t), k), FALSE)
+\* INSERT INTO t VALUES (k, 'H')
+InsertH(t, k)    == RowsOk(t, 1) /\ Dml(t, InsertOp(ForUpdate(t), <<<<k, H>>>>), FALSE)
+
+\* SELECT * FROM CSV(',', `t.csv`, 'UTF8') : the table function names the same file, hence the same loaded table
+SelectFn(t) == t # TempT /\ Select(t)
+
+\* ALTER TABLE t SET ENCODING TO SJIS : a table attribute; the table is loaded for update and counts as changed
+\* (it has to be written in the new encoding), its rows stay; setting the value it already has does nothing
+SetEnc(t) ==
+  IF t = TempT
+    THEN out' = Err("NotTable") /\ ended' = Script /\ UNCHANGED <<disk, cache, dirty, created, temp, envn, enc>>
+  ELSE IF ForUpdate(t).absent
+    THEN out' = Err("FileNotExist") /\ ended' = Script /\ UNCHANGED <<disk, cache, dirty, created, temp, envn, enc>>
+  ELSE /\ out' = Ok
+       /\ cache' = [cache EXCEPT ![t] = Loaded(ForUpdate(t), TRUE)]
+       /\ enc' = enc \cup {t}
+       /\ dirty' = IF t \in enc THEN dirty ELSE dirty \cup {t}
+       /\ UNCHANGED <<disk, created, temp, ended, envn>>
+
+\* CREATE TABLE NewFile (..) AS SELECT .. FROM u, k = 0: (id, v) AS SELECT id, v           - the rows of u
+\*                                              k = 1: (id) AS SELECT id, v               - wrong number of names
+\*                                              k = 2: (id, id) AS SELECT id, v           - duplicate names
+\*                                              k = 3: (id, v) AS SELECT id, 1 % 0        - query fails on the first row
+\* a failing CREATE leaves no file and no lock behind: the same name can be created afterwards
+CreateAs(u, k) ==
+  LET src == Seen(u)
+      load == IF u # TempT /\ ~cache[u].loaded THEN [cache EXCEPT ![u] = Loaded(disk[u], FALSE)] ELSE cache
+      fail(e, c) == out' = Err(e) /\ ended' = Script /\ cache' = c /\ UNCHANGED created IN
+  /\ u # NewFile
+  /\ IF ~disk[NewFile].absent \/ NewFile \in created THEN fail("FileAlreadyExist", cache)
+     ELSE IF src.absent THEN fail("FileNotExist", cache)
+     ELSE IF src.rows # <<>> /\ ~Has(src, "id") THEN fail("FieldNotExist", load)
+     ELSE IF src.rows # <<>> /\ k = 3 THEN fail("IntegerDividedByZero", load)
+     ELSE IF src.rows # <<>> /\ k # 3 /\ ~Has(src, "v") THEN fail("FieldNotExist", load)
+     ELSE IF k = 1 THEN fail("TableFieldLength", load)
+     ELSE IF k = 2 THEN fail("DuplicateFieldName", load)
+     ELSE /\ out' = Ok
+          /\ cache' = [load EXCEPT ![NewFile] = Loaded(T(<<"id", "v">>, [i \in 1..Len(src.rows) |-> <<src.rows[i][ColIdx(src, "id")], src.rows[i][ColIdx(src, "v")]>>]), TRUE)]
+          /\ created' = created \cup {NewFile}
+          /\ UNCHANGED ended
+  /\ UNCHANGED <<disk, dirty, temp, envn, enc>>
+
 \* CREATE TABLE NewFile (id, v)
 Create ==
   /\ IF ~disk[NewFile].absent \/ NewFile \in created
@@ -278,22 +333,28 @@ Create ==
             /\ cache' = [cache EXCEPT ![NewFile] = Loaded(T(<<"id", "v">>, <<>>), TRUE)]
             /\ created' = created \cup {NewFile}
             /\ UNCHANGED ended
-  /\ UNCHANGED <<disk, dirty, temp, envn>>
+  /\ UNCHANGED <<disk, dirty, temp, envn, enc>>
 
-\* COMMIT: every created or changed table reaches its file; the temporary table gets a new restore point
+\* COMMIT: every created or changed table reaches its file; the temporary table gets a new restore point.
+\* All files are encoded before the first one is replaced: if one of them cannot be encoded (a text that the
+\* table's encoding cannot spell) the COMMIT fails and nothing at all has happened.
+HasH(t) == \E i \in 1..Len(t.rows) : \E j \in 1..Len(t.rows[i]) : t.rows[i][j] = H
+Unencodable == {f \in (dirty \cup created) \cap AllFiles : cache[f].loaded /\ f \in enc /\ HasH(cache[f].tbl)}
 Commit ==
-  /\ disk' = [f \in AllFiles |-> IF f \in dirty \cup created /\ cache[f].loaded THEN cache[f].tbl ELSE disk[f]]
-  /\ temp' = IF TempT \in dirty THEN [temp EXCEPT !.rp = temp.cur] ELSE temp
-  /\ cache' = [f \in AllFiles |-> NotLoaded]
-  /\ dirty' = {} /\ created' = {}
-  /\ out' = Ok
-  /\ UNCHANGED <<ended, envn>>
+  IF Unencodable # {}
+    THEN out' = Err("Commit") /\ ended' = Script /\ UNCHANGED <<disk, cache, dirty, created, temp, envn, enc>>
+    ELSE /\ disk' = [f \in AllFiles |-> IF f \in dirty \cup created /\ cache[f].loaded THEN cache[f].tbl ELSE disk[f]]
+         /\ temp' = IF TempT \in dirty THEN [temp EXCEPT !.rp = temp.cur] ELSE temp
+         /\ cache' = [f \in AllFiles |-> NotLoaded]
+         /\ dirty' = {} /\ created' = {} /\ enc' = {}
+         /\ out' = Ok
+         /\ UNCHANGED <<ended, envn>>
 
 \* ROLLBACK: as at the last COMMIT
 Rollback ==
   /\ temp' = IF TempT \in dirty THEN [temp EXCEPT !.cur = temp.rp] ELSE temp
   /\ cache' = [f \in AllFiles |-> NotLoaded]
-  /\ dirty' = {} /\ created' = {}
+  /\ dirty' = {} /\ created' = {} /\ enc' = {}
   /\ out' = Ok
   /\ UNCHANGED <<disk, ended, envn>>
 
@@ -305,10 +366,10 @@ EnvCommit(f) ==
        ELSE /\ disk' = [disk EXCEPT ![f] = T(@.cols, Append(@.rows, [j \in 1..Len(@.cols) |-> 90 + envn]))]
             /\ envn' = envn + 1
             /\ out' = Ok
-  /\ UNCHANGED <<cache, dirty, created, temp, ended>>
+  /\ UNCHANGED <<cache, dirty, created, temp, ended, enc>>
 
 \* the harness reads the file itself (no csvq involved)
-Disk(f) == out' = Val(Show(disk[f])) /\ UNCHANGED <<disk, cache, dirty, created, temp, ended, envn>>
+Disk(f) == out' = Val(Show(disk[f])) /\ UNCHANGED <<disk, cache, dirty, created, temp, ended, envn, enc>>
 
 -----------------------------------------------------------------------------
 Do(a) ==
@@ -334,6 +395,11 @@ Do(a) ==
        [] a.act = "updatejoin" -> UpdateJoin(a.t, a.u)
        [] a.act = "addfirst" -> AddFirst(a.t)
        [] a.act = "addfail"  -> AddFail(a.t, a.k)
+       [] a.act = "updateswap" -> UpdateSwap(a.t, a.k)
+       [] a.act = "inserth"  -> InsertH(a.t, a.k)
+       [] a.act = "selectfn" -> SelectFn(a.t)
+       [] a.act = "setenc"   -> SetEnc(a.t)
+       [] a.act = "createas" -> CreateAs(a.u, a.k)
        [] a.act = "create"   -> Create
        [] a.act = "commit"   -> Commit
        [] a.act = "rollback" -> Rollback
@@ -342,6 +408,7 @@ Do(a) ==
 
 A(act, t, k, x) == [act |-> act, t |-> t, k |-> k, x |-> x, u |-> ""]
 A2(act, t, u) == [act |-> act, t |-> t, k |-> 0, x |-> 0, u |-> u]
+A3(act, u, k) == [act |-> act, t |-> "", k |-> k, x |-> 0, u |-> u]
 
 Actions ==
   {A(x, t, 0, 0) : x \in {"select", "insertbad", "addcol", "dropcol", "renamevu", "renameuv"}, t \in Tables}
@@ -353,6 +420,11 @@ Actions ==
   \cup {A(x, t, 0, 0) : x \in {"selectsub", "selectagg", "addfirst"}, t \in Tables}
   \cup {A(x, t, k, 0) : x \in {"insertcols", "insertbad2", "addfail"}, t \in Tables, k \in Keys}
   \cup {A2(x, t, u) : x \in {"insertsel", "updatejoin"}, t \in Tables, u \in Tables \ {NewFile}}
+  \cup {A("updateswap", t, k, 0) : t \in Tables, k \in Keys \cup {0}}
+  \cup {A("inserth", t, k, 0) : t \in Tables, k \in Keys}
+  \cup {A("selectfn", t, 0, 0) : t \in AllFiles}
+  \cup {A("setenc", t, 0, 0) : t \in Tables}
+  \cup {A3("createas", u, k) : u \in Tables \ {NewFile}, k \in 0..3}
   \cup {A(x, "", 0, 0) : x \in {"create", "commit", "rollback"}}
   \cup {A("env", f, 0, 0) : f \in Files}
   \cup {A("disk", f, 0, 0) : f \in AllFiles}
@@ -371,7 +443,7 @@ FinalDisk(normal) ==
 (* Properties of the design                                                 *)
 \* C08: a failing statement leaves every table as the transaction sees it, and the files, unchanged
 FailStutters ==
-  [][out'.k = "err" => /\ disk' = disk /\ temp' = temp /\ dirty' = dirty /\ created' = created
+  [][out'.k = "err" => /\ disk' = disk /\ temp' = temp /\ dirty' = dirty /\ created' = created /\ enc' = enc
                        /\ \A f \in AllFiles : cache'[f].loaded =>
                              cache'[f].tbl = (IF cache[f].loaded /\ (cache[f].upd \/ ~cache'[f].upd) THEN cache[f].tbl ELSE disk[f])]_vars
 \* C01: a table that is neither dirty nor created is never written
@@ -380,4 +452,7 @@ UntouchedUnwritten == [][\A f \in AllFiles : (f \notin dirty \cup created /\ dis
 HeldStable == [][\A f \in AllFiles : (f \in HeldU /\ f \in HeldU') => disk'[f] = disk[f]]_vars
 \* dirty tables are loaded for update
 DirtyLoaded == \A f \in dirty \ {TempT} : cache[f].loaded /\ cache[f].upd
+EncHeld == enc \subseteq HeldU
+\* C01: a COMMIT either writes every changed table or none
+CommitAllOrNothing == [][\A f, g \in AllFiles : (f \in dirty \cup created /\ g \in dirty \cup created /\ cache[f].loaded /\ cache[g].loaded /\ envn' = envn /\ disk'[f] # disk[f]) => disk'[g] = cache[g].tbl]_vars
 =============================================================================
